@@ -72,7 +72,7 @@ SPECS["C20"] = {
                      "lengthless_source", "wrong_total", "out_of_order_completion", "straggler", "exact_tie",
                      "more_workers_than_chunks", "empty_input", "chunk_larger_than_input", "single_worker",
                      "isplit_sweep_row", "sort_with_ties", "worker_process_killed", "task_raised",
-                     "pmap_call_after_a_failed_one", "earlier_pmap_calls_in_the_same_process"],
+                     "pmap_call_after_a_failed_one", "earlier_pmap_calls_in_the_same_process", "sort_failed_half_way"],
     "manifest": {
         "design_ref": "3.6",
         "level_text": ("seeded search over (a) option sets x instrumented iterables x scripted clocks (stalls, "
@@ -131,7 +131,8 @@ SPECS["C01"] = _rec(
     ["create_over_stale_bytes", "overwrite", "path_held_other_form", "object_reopened_on_other_file",
      "table_larger_than_stdio_buffer", "interleaved_callers", "nonzero_offset", "long_lived_object_reopened",
      "header_dict_read_from_an_earlier_file", "caller_edited_a_header_dict_it_was_handed",
-     "caller_edited_a_result_in_place", "file_names_expanded_by_esutil_var", "file_names_expanded_by_esutil_home"],
+     "caller_edited_a_result_in_place", "file_names_expanded_by_esutil_var", "file_names_expanded_by_esutil_home",
+     "caller_refilled_its_work_buffer_after_a_write", "header_end_aligned_to_a_block_boundary"],
     ("seeded search over dtypes x values x headers x entry points x prior path contents x caller interleavings; every read "
      "is compared bit-for-bit with the written table and the file's bytes are parsed independently after every write. "
      "Sampling, not proof."),
@@ -146,7 +147,8 @@ SPECS["C04"] = _rec(
     ["create_over_stale_bytes", "overwrite", "path_held_other_form", "object_reopened_on_other_file",
      "table_larger_than_stdio_buffer", "interleaved_callers", "long_lived_object_reopened",
      "header_dict_read_from_an_earlier_file", "several_writes_on_one_handle", "reopen_for_append",
-     "caller_edited_a_result_in_place", "file_names_expanded_by_esutil_var"],
+     "caller_edited_a_result_in_place", "file_names_expanded_by_esutil_var",
+     "caller_refilled_its_work_buffer_after_a_write", "header_end_aligned_to_a_block_boundary"],
     ("seeded search as C01; values are compared exactly for integers and strings and to 16/7 significant digits for floats, "
      "NaN/inf preserved; independent tokenisation of the file's text. Sampling, not proof."),
     "working file system; magnitudes within 1e-14 (f8) / 1e-5 (f4) of the largest finite value are not generated (their "
@@ -179,7 +181,9 @@ SPECS["C03"] = _rec(
      "perturbation fired"),
     ["append_to_missing_file", "reopen_for_append", "incompatible_append", "several_writes_on_one_handle",
      "close_after_writes", "overwrite", "create_over_stale_bytes", "interleaved_callers",
-     "chunk_handed_over_as_2d_array", "file_names_expanded_by_esutil_home", "caller_edited_a_result_in_place"],
+     "chunk_handed_over_as_2d_array", "file_names_expanded_by_esutil_home", "caller_edited_a_result_in_place",
+     "file_names_expanded_by_esutil_mixed", "empty_chunk_written_through_a_handle",
+     "caller_refilled_its_work_buffer_after_a_write"],
     ("seeded search over operation histories; the model is the list of accepted chunks; after every mutating step with no "
      "writer open the file's bytes are parsed independently (SIZE line, END, rows x itemsize bytes or rows lines) and "
      "every read-back is compared with the concatenation. Sampling, not proof."),
@@ -206,6 +210,7 @@ SPECS["C19"] = {
     "expect_reach": ["edge_value", "repeated_value", "target_value", "forced_rotation_path", "zero_width_box",
                      "closed_end_value", "deviate_exactly_one", "deviate_on_a_run_of_equal_cumulative_values",
                      "same_density_object_with_changed_parameters", "deviate_equal_to_a_tabulated_cumulative_value",
+                     "sampler_object_drawn_from_again",
                      "caller_edited_a_result_in_place"],
     "assumptions": ["separations are judged with an atan2(|a x b|, a.b) reference in extended precision; 'inside' means "
                     "within 1e-9 deg plus the 1/cos(dec) conditioning of a latitude next to a pole",
@@ -240,7 +245,7 @@ SPECS["C10"] = {
     "expect_reach": ["interleaved_callers_on_one_object", "call_after_aborted_call", "call_aborted_half_way",
                      "scalar_array_alternation", "lazy_inverse_fit_built_late", "lazy_inverse_fit_built_first",
                      "non_finite_input", "sky_position_far_from_the_field", "another_wcs_object_created_and_used",
-                     "request_buffers_refilled_in_place", "caller_edited_a_result_in_place"],
+                     "request_buffers_refilled_in_place", "caller_edited_a_result_in_place", "pixel_positions_of_type_f4"],
     "assumptions": ["clean-room reference: pixel offset, CD matrix, TPV/SIP polynomial in the convention's order, t + xi*e + "
                     "eta*n normalised (extended precision)",
                     "crval2 = +90 exactly is only generated with an explicit LONPOLE=180 (the FITS default differs there)",
